@@ -187,14 +187,14 @@ package ipa
 //@ pkginv lab_ipa == strbytes("ipa") && lab_C == strbytes("C") && lab_in == strbytes("input point") && lab_out == strbytes("output point") && lab_w == strbytes("w") && lab_L == strbytes("L") && lab_R == strbytes("R") && lab_x == strbytes("x")
 
 //@ func MultiScalar
-//@ props C02
+//@ props C02 C04 C13
 //@ prelude field group bytes bytesint bytesbridge curve frint bary ipa ipaspec
 //@ requires validVec(points)
 //@ ensures err != nil <==> len(points) != len(scalars)
 //@ ensures err == nil ==> validP(result0.inner) && gelP(result0.inner) == gsum(points, scalars, len(points))
 
 //@ func commit
-//@ props C02
+//@ props C02 C04 C13
 //@ prelude field group bytes bytesint bytesbridge curve frint bary ipa ipaspec
 //@ requires validVec(groupElements)
 //@ ensures err != nil <==> len(groupElements) != len(polynomial)
